@@ -1,0 +1,94 @@
+//go:build verif
+
+// Round-trip lemmas for the RDP wire-message codecs (property C18), stated as Go functions over the
+// real FromBytes/ToBytes methods and proved by /verif/gvc for all inputs: every lemma must return
+// true. This file is only compiled with the build tag `verif`; nothing calls it.
+
+package l4rdp
+
+import "bytes"
+
+// parse o serialise = identity on accepted inputs (hence accepted inputs have the exact length)
+
+func lemmaTPKTParseSerialize(src []byte) bool {
+	h := &TPKTHeader{}
+	if h.FromBytes(src) != nil {
+		return true
+	}
+	out, err := h.ToBytes()
+	return err == nil && bytes.Equal(out, src)
+}
+
+func lemmaX224ParseSerialize(src []byte) bool {
+	x := &X224Crq{}
+	if x.FromBytes(src) != nil {
+		return true
+	}
+	out, err := x.ToBytes()
+	return err == nil && bytes.Equal(out, src)
+}
+
+func lemmaNegReqParseSerialize(src []byte) bool {
+	r := &RDPNegReq{}
+	if r.FromBytes(src) != nil {
+		return true
+	}
+	out, err := r.ToBytes()
+	return err == nil && bytes.Equal(out, src)
+}
+
+func lemmaCorrInfoParseSerialize(src []byte) bool {
+	i := &RDPCorrInfo{}
+	if i.FromBytes(src) != nil {
+		return true
+	}
+	out, err := i.ToBytes()
+	return err == nil && bytes.Equal(out, src)
+}
+
+func lemmaTokenParseSerialize(src []byte) bool {
+	t := &RDPToken{}
+	if t.FromBytes(src) != nil {
+		return true
+	}
+	out, err := t.ToBytes()
+	return err == nil && bytes.Equal(out, src)
+}
+
+// serialise o parse = identity on messages
+
+func lemmaTPKTSerializeParse(h TPKTHeader) bool {
+	out, err := h.ToBytes()
+	if err != nil {
+		return false
+	}
+	g := &TPKTHeader{}
+	return g.FromBytes(out) == nil && *g == h
+}
+
+func lemmaX224SerializeParse(x X224Crq) bool {
+	out, err := x.ToBytes()
+	if err != nil {
+		return false
+	}
+	g := &X224Crq{}
+	return g.FromBytes(out) == nil && *g == x
+}
+
+func lemmaNegReqSerializeParse(r RDPNegReq) bool {
+	out, err := r.ToBytes()
+	if err != nil {
+		return false
+	}
+	g := &RDPNegReq{}
+	return g.FromBytes(out) == nil && *g == r
+}
+
+func lemmaCorrInfoSerializeParse(i RDPCorrInfo) bool {
+	out, err := i.ToBytes()
+	if err != nil {
+		return false
+	}
+	g := &RDPCorrInfo{}
+	return g.FromBytes(out) == nil && *g == i
+}
